@@ -1080,4 +1080,73 @@ theorem tryFrom_lengths_pos {ν α : Type} [DecidableEq ν] (shape : Shape ν) (
           · exact absurd (List.any_eq_true.mpr ⟨d, hd, by simp [h0]⟩) h3
           · exact h0
 
+/-! ### matrix sources -/
+
+/-- a matrix source resolves every position inside its size, and different positions to
+    different cells -/
+structure MSource.WellFormed {κ : Type} (src : MSource κ) : Prop where
+  resolves : ∀ p : Nat × Nat, p.1 < src.rows ∧ p.2 < src.columns → ∃ c, src.cell p = some c
+  injective : ∀ (p q : Nat × Nat) (c : κ), p.1 < src.rows ∧ p.2 < src.columns →
+    q.1 < src.rows ∧ q.2 < src.columns → src.cell p = some c → src.cell q = some c → p = q
+
+theorem ofMatrix_wellFormed (rows columns : Nat) : (MSource.ofMatrix rows columns).WellFormed where
+  resolves p hp := ⟨_, ofMatrix_cell rows columns p hp⟩
+  injective p q c hp hq h1 h2 := ofMatrix_injective rows columns p q c hp hq h1 h2
+
+theorem range_wellFormed {κ : Type} (src : MSource κ) (h : src.WellFormed)
+    (rs rl cs cl : Nat) : (src.range rs rl cs cl).WellFormed := by
+  have key : ∀ p : Nat × Nat, p.1 < (src.range rs rl cs cl).rows ∧ p.2 < (src.range rs rl cs cl).columns →
+      (src.range rs rl cs cl).cell p = src.cell (p.1 + rs, p.2 + cs) ∧
+        (p.1 + rs < src.rows ∧ p.2 + cs < src.columns) := by
+    intro p hp
+    simp only [MSource.range, clipLength] at hp ⊢
+    simp only [rangeMap, hp.1, hp.2, if_true]
+    exact ⟨trivial, by omega, by omega⟩
+  constructor
+  · intro p hp
+    obtain ⟨e, v⟩ := key p hp
+    rw [e]; exact h.resolves _ v
+  · intro p q c hp hq h1 h2
+    obtain ⟨e1, v1⟩ := key p hp
+    obtain ⟨e2, v2⟩ := key q hq
+    rw [e1] at h1; rw [e2] at h2
+    have := h.injective _ _ c v1 v2 h1 h2
+    simp only [Prod.mk.injEq] at this
+    exact Prod.ext (by omega) (by omega)
+
+theorem reverse_wellFormed {κ : Type} (src : MSource κ) (h : src.WellFormed)
+    (revRows revColumns : Bool) : (src.reverse revRows revColumns).WellFormed := by
+  have key : ∀ p : Nat × Nat, p.1 < src.rows ∧ p.2 < src.columns →
+      (src.reverse revRows revColumns).cell p =
+        src.cell (if revRows then src.rows - 1 - p.1 else p.1,
+                  if revColumns then src.columns - 1 - p.2 else p.2) ∧
+        ((if revRows then src.rows - 1 - p.1 else p.1) < src.rows ∧
+         (if revColumns then src.columns - 1 - p.2 else p.2) < src.columns) := by
+    intro p hp
+    have h1 : ¬ (src.rows = 0 ∨ src.columns = 0) := by omega
+    have h2 : ¬ ((revRows = true ∧ p.1 > src.rows - 1) ∨ (revColumns = true ∧ p.2 > src.columns - 1)) := by
+      omega
+    simp only [MSource.reverse, h1, h2, if_false]
+    refine ⟨trivial, ?_, ?_⟩ <;> split <;> omega
+  constructor
+  · intro p hp
+    obtain ⟨e, v⟩ := key p hp
+    rw [e]; exact h.resolves _ v
+  · intro p q c hp hq h1 h2
+    obtain ⟨e1, v1⟩ := key p hp
+    obtain ⟨e2, v2⟩ := key q hq
+    rw [e1] at h1; rw [e2] at h2
+    have := h.injective _ _ c v1 v2 h1 h2
+    simp only [Prod.mk.injEq] at this
+    have hp' : p.1 < src.rows ∧ p.2 < src.columns := hp
+    have hq' : q.1 < src.rows ∧ q.2 < src.columns := hq
+    apply Prod.ext
+    · have := this.1; split at this <;> omega
+    · have := this.2; split at this <;> omega
+
+theorem linePosition_injective (line : Line) (j k : Nat) (h : line.position j = line.position k) :
+    j = k := by
+  cases line <;> simp [Line.position] at h <;> omega
+
+
 end EasyMl.Iter
